@@ -14,13 +14,15 @@ def conv_conformance(trials=1500, seed=0):
     for _ in range(trials):
         n = int(rng.integers(1, 12)); L = int(rng.integers(1, 8))
         origin = int(rng.integers(-(L // 2), (L - 1) // 2 + 1)) if L > 1 else 0
-        a = rng.integers(-5, 6, size=(n, 2)).astype(float)
+        a = rng.integers(-5, 6, size=(n, 3)).astype(float)
         w = rng.integers(-4, 5, size=L).astype(float)
-        ref = convolve1d(a, w, axis=0, origin=origin)
+        # the axis argument as the caller may give it -- including not at all (scipy's default is the LAST axis)
+        akw = [dict(axis=0), dict(), dict(axis=1), dict(axis=-1), dict(axis=-2)][_ % 5]
+        ref = convolve1d(a, w, origin=origin, **akw)
         sa = np.empty(a.shape, dtype=object)
         for idx in np.ndindex(a.shape):
             sa[idx] = R(int(a[idx]))
-        got = sym_convolve1d(sa, w, axis=0, origin=origin)
+        got = sym_convolve1d(sa, w, origin=origin, real_impl=convolve1d, **akw)
         gv = np.array([[float(z3.simplify(v.t).as_fraction()) for v in row] for row in np.asarray(got)])
         if not np.array_equal(ref, gv):
             bad += 1
@@ -40,12 +42,13 @@ def corr_conformance(trials=800, seed=3):
         a = rng.integers(-5, 6, size=(n, 2)).astype(float)
         cw = t % 2 == 1
         w = rng.integers(-4, 5, size=L).astype(float) + (1j * rng.integers(-3, 4, size=L) if cw else 0)
-        ref = correlate1d(a, w, axis=0, origin=origin)
+        akw = [dict(axis=0), dict(), dict(axis=1), dict(axis=-1)][(t // 2) % 4]
+        ref = correlate1d(a, w, origin=origin, **akw)
         sa = np.empty(a.shape, dtype=object)
         for idx in np.ndindex(a.shape):
             sa[idx] = R(int(a[idx]))
         sw = [C(R(int(v.real)), R(int(v.imag))) if cw else R(int(v.real)) for v in w]
-        got = np.asarray(sym_correlate1d(sa, sw, axis=0, origin=origin))
+        got = np.asarray(sym_correlate1d(sa, sw, origin=origin, real_impl=correlate1d, **akw))
 
         def val(v):
             from ndvc.sym import lift
